@@ -44,9 +44,15 @@ pub enum Pos {
     Inject,
     InsertValue,
     UpdateValue,
+    PgArrayDefault,
+    AlterAddDefault,
+    AlterModifyDefault,
+    MysqlAlterColComment,
+    IndexFilterLiteral,
+    CheckLiteral,
 }
 
-const TEXT_POSITIONS: [Pos; 19] = [
+const TEXT_POSITIONS: [Pos; 25] = [
     Pos::Val,
     Pos::Constant,
     Pos::ConstantInBuild,
@@ -66,6 +72,12 @@ const TEXT_POSITIONS: [Pos; 19] = [
     Pos::Inject,
     Pos::InsertValue,
     Pos::UpdateValue,
+    Pos::PgArrayDefault,
+    Pos::AlterAddDefault,
+    Pos::AlterModifyDefault,
+    Pos::MysqlAlterColComment,
+    Pos::IndexFilterLiteral,
+    Pos::CheckLiteral,
 ];
 
 fn a(s: &str) -> Alias {
@@ -134,6 +146,35 @@ fn render_text(p: Pos, d: Dialect, v: &str) -> Option<String> {
             .table(a("t"))
             .col(ColumnDef::new(a("c")).text().default(v))
             .build_any(s),
+        Pos::PgArrayDefault => {
+            if d != Dialect::Postgres {
+                return None;
+            }
+            Table::create()
+                .table(a("t"))
+                .col(ColumnDef::new(a("c")).array(ColumnType::Text).default(Value::Array(ArrayType::String, Some(Box::new(vec![v.into(), "second".into()])))))
+                .build_any(s)
+        }
+        Pos::AlterAddDefault => Table::alter().table(a("t")).add_column(ColumnDef::new(a("c")).text().default(v)).build_any(s),
+        Pos::AlterModifyDefault => {
+            if d == Dialect::Sqlite {
+                return None;
+            }
+            Table::alter().table(a("t")).modify_column(ColumnDef::new(a("c")).text().default(v)).build_any(s)
+        }
+        Pos::MysqlAlterColComment => {
+            if d != Dialect::Mysql {
+                return None;
+            }
+            Table::alter().table(a("t")).add_column(ColumnDef::new(a("c")).text().comment(v)).build_any(s)
+        }
+        Pos::IndexFilterLiteral => {
+            if d == Dialect::Mysql {
+                return None;
+            }
+            Index::create().name("ix").table(a("t")).col(a("c")).and_where(Expr::col(a("c")).ne(v)).build_any(s)
+        }
+        Pos::CheckLiteral => Table::create().table(a("t")).col(ColumnDef::new(a("c")).text()).check(Expr::col(a("c")).ne(v)).build_any(s),
         Pos::MysqlColComment => {
             if d != Dialect::Mysql {
                 return None;
